@@ -543,4 +543,62 @@ func init() {
 	}
 }
 
+func init() {
+	registry["C08"] = func(tier string) []*Job {
+		var js []*Job
+		pre := 2
+		callers := []int{2}
+		if tier == "thorough" {
+			callers = []int{2, 3}
+		}
+		for _, n := range callers {
+			p := pre
+			if n == 3 {
+				p = 2
+			} else if tier == "thorough" {
+				p = 3
+			}
+			js = append(js, mk(sprintf("c08.singleflight.callers%d.pre%d", n, p), rootPkg, "ZZ_C08_SingleFlight", map[string]int{"callers": n, "canary": 0},
+				func(b *Bounds) { b.Unwind = 60; b.Preempt = p; b.Race = true; b.MaxPaths = 6000000; b.MaxWallS = 2400 }))
+		}
+		c := mk("c08.canary", rootPkg, "ZZ_C08_SingleFlight", map[string]int{"callers": 2, "canary": 1}, func(b *Bounds) { b.Unwind = 60; b.Preempt = 0; b.Race = true })
+		c.Canary = "c08.canary"
+		return append(js, c)
+	}
+	registry["C09"] = func(tier string) []*Job {
+		var js []*Job
+		pre := 2
+		if tier == "thorough" {
+			pre = 3
+		}
+		for _, mode := range []int{0, 1} {
+			js = append(js, mk(sprintf("c09.mode%d.pre%d", mode, pre), rootPkg, "ZZ_C09_LoadVsWrite", map[string]int{"mode": mode, "canary": 0},
+				func(b *Bounds) { b.Unwind = 60; b.Preempt = pre; b.Race = true; b.MaxPaths = 6000000; b.MaxWallS = 2400 }))
+		}
+		c := mk("c09.canary", rootPkg, "ZZ_C09_LoadVsWrite", map[string]int{"mode": 0, "canary": 1}, func(b *Bounds) { b.Unwind = 60; b.Preempt = 1; b.Race = true })
+		c.Canary = "c09.canary"
+		return append(js, c)
+	}
+}
+
+func init() {
+	registry["C02"] = func(tier string) []*Job {
+		var js []*Job
+		type pc struct{ threads, per, samekey, preempt int }
+		pcs := []pc{{2, 1, 1, 2}, {2, 1, 0, 1}}
+		if tier == "thorough" {
+			pcs = []pc{{2, 1, 1, 3}, {2, 1, 0, 2}, {2, 2, 1, 1}, {3, 1, 1, 1}}
+		}
+		for _, x := range pcs {
+			js = append(js, mk(sprintf("c02.t%d.ops%d.samekey%d.pre%d", x.threads, x.per, x.samekey, x.preempt), rootPkg, "ZZ_C02_Linearizable",
+				map[string]int{"threads": x.threads, "ops_per_thread": x.per, "samekey": x.samekey, "canary": 0},
+				func(b *Bounds) { b.Unwind = 60; b.Preempt = x.preempt; b.Race = true; b.MaxPaths = 8000000; b.MaxWallS = 3000 }))
+		}
+		c := mk("c02.canary", rootPkg, "ZZ_C02_Linearizable", map[string]int{"threads": 2, "ops_per_thread": 1, "samekey": 1, "canary": 1},
+			func(b *Bounds) { b.Unwind = 60; b.Preempt = 0; b.Race = true })
+		c.Canary = "c02.canary"
+		return append(js, c)
+	}
+}
+
 func sprintf(f string, a ...interface{}) string { return fmt.Sprintf(f, a...) }
